@@ -129,6 +129,19 @@ func zzScopeProgram(sv *zzsv.T, k int, clash string, arr *zzExpr) *zzProg {
 		return &zzProg{funcs: []*zzFunc{{name: "h", params: []string{"p"}, body: []*zzStmt{
 			stSet("seen", xVar("x")), stLocal("x"), stSet("x", xBin("+", xVar("p"), xLit(5))), stRet(xVar("x"))}}},
 			main: []*zzStmt{stEach("", "x", arr, stSet("r", xCall("h", N)), stT(xVar("x")), stT(xVar("seen"))), stT(xVar("a")), stRet(xVar("r"))}}
+	case 22: // a function without parameters declares its local inside a nested block
+		return &zzProg{funcs: []*zzFunc{{name: "f", body: []*zzStmt{
+			stIf(xBin("<", xLit(0), N), stLocal(clash), stSet(clash, xBin("+", N, xLit(5))), stT(xVar(clash))), stRet(xLit(3))}}},
+			main: []*zzStmt{stSet("r", xCall("f")), stT(xVar("a")), stT(xVar("b")), stRet(xVar(clash))}}
+	case 23: // ... inside a loop, called from a function that has a local of that name
+		return &zzProg{funcs: []*zzFunc{
+			{name: "f", body: []*zzStmt{stWhile(xBin("<", xVar("g"), xLit(1)), stLocal(clash), stSet(clash, xLit(77)), stSet("g", xBin("+", xVar("g"), xLit(1)))), stRet(xLit(3))}},
+			{name: "outer", params: []string{"p"}, body: []*zzStmt{stLocal(clash), stSet(clash, xVar("p")), stSet("q", xCall("f")), stRet(xVar(clash))}}},
+			main: []*zzStmt{stSet("g", xLit(0)), stSet("r", xCall("outer", N)), stT(xVar("a")), stT(xVar("b")), stRet(xVar("r"))}}
+	case 24: // ... inside a switch arm; the caller is a running loop whose variable has that name
+		sw := &zzStmt{kind: sSwitch, e: N, cases: []zzCase{{exprs: []*zzExpr{N}, body: []*zzStmt{stLocal("x"), stSet("x", xLit(55))}}, {dflt: true, body: []*zzStmt{stT(xLit(1))}}}}
+		return &zzProg{funcs: []*zzFunc{{name: "f", body: []*zzStmt{sw, stRet(xLit(3))}}},
+			main: []*zzStmt{stEach("", "x", arr, stSet("r", xCall("f")), stT(xVar("x"))), stT(xVar("a")), stRet(xVar("x"))}}
 	default: // a function without return used as a statement: nothing comes back
 		return &zzProg{funcs: []*zzFunc{{name: "f", params: []string{"p"}, body: []*zzStmt{stSet("g", xVar("p"))}}},
 			main: []*zzStmt{stCall("f", N), stCall("f", xBin("+", N, xLit(1))), stRet(xVar("g"))}}
@@ -139,7 +152,7 @@ func zzScopeProgram(sv *zzsv.T, k int, clash string, arr *zzExpr) *zzProg {
 // variables of the same names have their old values, the callee's are gone,
 // other assignments are global.
 func ZZ_C06_Scopes(sv *zzsv.T) {
-	k := sv.Choice("scenario", 23)
+	k := sv.Choice("scenario", 26)
 	clash := []string{"a", "b"}[sv.Choice("clash", 2)]
 	vars := map[string]zv{"a": zInt(sv.Int64("a")), "b": zInt(sv.Int64("b"))}
 	order := []string{"a", "b"}
